@@ -210,7 +210,7 @@ inductive Ev where
   | readResp (id payload : Nat)
   | readCall (id : Nat)
   | readNotif
-  | readCancel
+  | readCancel (id : Nat)         -- a notifications/cancelled naming request `id` was read off the wire
   | rx
   | wret (r : Option Nat) (o : WOut)   -- a transport Write returned; `some r`: it carried the response of request r
   | a1 (r : Nat) | a2 (r : Nat) | p1 (r : Nat) | p2 (r : Nat)
@@ -230,7 +230,7 @@ def evOf : Label → Ev
   | .read (.resp id p) => .readResp id p
   | .read (.call id) => .readCall id
   | .read .notif => .readNotif
-  | .read (.cancel _) => .readCancel
+  | .read (.cancel id) => .readCancel id
   | .rx => .rx
   | .wret w o => .wret w.resp? o
   | .a1 r => .a1 r | .a2 r => .a2 r | .p1 r => .p1 r | .p2 r => .p2 r
@@ -277,6 +277,8 @@ structure Mon where
   idx : List (Nat × Nat) := []       -- monitor's view of the id index: wire id ↦ request, from A1/P1 labels
   startedLate : List Nat := []       -- calls started when the connection was already done
   ctxd : List Nat := []              -- calls whose context the harness cancelled
+  cancelAsked : List Nat := []       -- ids named by notifications/cancelled read off the wire, not yet used by a Cancel (multiset)
+  unasked : List Nat := []           -- ids Cancel was invoked for although no unconsumed cancellation named them
   ncalls : Nat := 0
 deriving Inhabited, Repr
 
@@ -301,6 +303,7 @@ inductive Clause where
   | c04Unrelated (r : Nat)
   | c04NotCancelled (id r : Nat)
   | c04CtxStuck (n : Nat)
+  | c04CancelUnasked (id : Nat)
   | c05TcTwice | c05OdTwice | c05ClosedBusy | c05DoneBusy
   | c05LateDispatch (r : Nat)
   | c05Stuck (impl : String)
@@ -319,7 +322,7 @@ def Mon.book (m : Mon) (p : Obs) : Ev → Mon
   | .readResp id pl => { m with sent := m.sent ++ [(id, pl)] }
   | .readCall id => { m with reqs := m.reqs ++ [{ id := some id, isNotif := false }] }
   | .readNotif => { m with reqs := m.reqs ++ [{}] }
-  | .readCancel => { m with reqs := m.reqs ++ [{ isCancel := true }] }
+  | .readCancel _ => { m with reqs := m.reqs ++ [{ isCancel := true }] }
   | .rx => { m with rxSeen := true }
   | .wret w out =>
     let m := if out = .broken then { m with brokenSeen := true } else m
@@ -347,6 +350,17 @@ def Mon.book (m : Mon) (p : Obs) : Ev → Mon
     | some r => modR m r fun q => { q with peerCancelled := true }
     | none => m
   | .other => m
+
+/-- Bookkeeping of cancellations; the ground truth is the WIRE: an id is asked for by every
+`read cancel <id>` label, and each `K1 <id>` (Connection.Cancel(id) running) consumes one such
+request.  A K1 whose id nobody asked for is remembered in `unasked`.  Touches only the fields
+`cancelAsked` and `unasked`. -/
+def Mon.bookCancel (m : Mon) : Ev → Mon
+  | .readCancel id => { m with cancelAsked := m.cancelAsked ++ [id] }
+  | .k1 id =>
+    if m.cancelAsked.contains id then { m with cancelAsked := m.cancelAsked.erase id }
+    else { m with unasked := m.unasked ++ [id] }
+  | _ => m
 
 /-- Handlers seen parked in `H` are marked as started. -/
 def Mon.mark (m : Mon) (o : Obs) : Mon :=
@@ -434,6 +448,13 @@ def chkCancelX (m : Mon) (p o : Obs) : Option Clause :=
         if q.peerCancelled || o.parked.contains (.p2 e.1) || q.p2done then none else some (.c04Unrelated e.1)
     | none => none
 
+/-- C04: `Connection.Cancel` is invoked only for an id that a received notifications/cancelled named
+(once per notification). -/
+def chkCancelAsked (m : Mon) : Option Clause :=
+  match m.unasked with
+  | id :: _ => some (.c04CancelUnasked id)
+  | [] => none
+
 /-- C04: what a `Cancel(id)` / a cancelled caller context must achieve in this very step. -/
 def chkEv (m : Mon) (p o : Obs) : Ev → Option Clause
   | .k1 id =>
@@ -467,14 +488,14 @@ def chkAll (m : Mon) (p o : Obs) (e : Ev) : Option Clause :=
   chkFinal p o <|> chkOwn m o <|> chkPanic o <|> chkBlocked m o <|> chkLate m o <|> chkRegAfterRx m o
   <|> chkAnswer m
   <|> chkOrder m p o
-  <|> chkCancelX m p o <|> chkEv m p o e
+  <|> chkCancelAsked m <|> chkCancelX m p o <|> chkEv m p o e
   <|> chkTc o <|> chkOd o <|> chkClosedIdle p o <|> chkDoneIdle o <|> chkLateDispatch m o
 
 /-- Update the monitor with the event and the implementation's observation after it; return the
 first violated clause. -/
 def monStepE (m : Mon) (e : Ev) (o : Obs) : Mon × Option Clause :=
   let p := m.prev
-  let m := m.book p e
+  let m := (m.bookCancel e).book p e
   ({ m.mark o with prev := o }, chkAll m p o e)
 
 def monStepT (m : Mon) (l : Label) (o : Obs) : Mon × Option Clause := monStepE m (evOf l) o
